@@ -425,6 +425,15 @@ func c11Run(t *testing.T, seed int64, cs c11Case, known map[string]bool) *c11Res
 			case "fc":
 				conn.mu.Lock()
 				conn.limit = actions.FlowControl{MaxMessages: a.Msgs, MaxBytes: a.Byts}
+				if cs.Grpc {
+					// a limit the client leaves unset (0) is the documented default, not "none of the other kind"
+					if a.Msgs <= 0 {
+						conn.limit.MaxMessages = 1000
+					}
+					if a.Byts <= 0 {
+						conn.limit.MaxBytes = 10 * 1024 * 1024
+					}
+				}
 				conn.mu.Unlock()
 				if cs.Grpc {
 					// flow control travels in the initial request only
@@ -433,7 +442,9 @@ func c11Run(t *testing.T, seed int64, cs c11Case, known map[string]bool) *c11Res
 				} else {
 					conn.reqs <- &actions.MessageStreamRequest{FlowControl: &actions.FlowControl{MaxMessages: a.Msgs, MaxBytes: a.Byts}}
 				}
-				res.evs = append(res.evs, fmt.Sprintf("fc~%d~%d", a.Msgs, a.Byts), "wake", "loop")
+				conn.mu.Lock()
+				res.evs = append(res.evs, fmt.Sprintf("fc~%d~%d", conn.limit.MaxMessages, conn.limit.MaxBytes), "wake", "loop")
+				conn.mu.Unlock()
 			case "publish":
 				var msgs []MsgSpec
 				for _, p := range a.Pads {
@@ -567,6 +578,9 @@ func c11Cases(rng *rand.Rand, n int) []c11Case {
 		// after its back-off: the fetch that is waiting has to wake at *that* deadline, not at the older one's
 		{Name: "redelivery-behind-extended-lease", Actions: []c11Action{{K: "fc", Msgs: 2, Byts: 10000}, {K: "publish", Pads: []int{0}}, {K: "advance", D: int64(time.Second)}, {K: "publish", Pads: []int{0}}, {K: "extend", Pick: []int{0}}, {K: "nack", Pick: []int{1}}, {K: "advance", D: int64(12500 * time.Millisecond)}}},
 		{Name: "redelivery-behind-extended-lease-grpc", Grpc: true, Actions: []c11Action{{K: "fc", Msgs: 2, Byts: 10000}, {K: "publish", Pads: []int{0}}, {K: "advance", D: int64(time.Second)}, {K: "publish", Pads: []int{0}}, {K: "extend", Pick: []int{0}}, {K: "nack", Pick: []int{1}}, {K: "advance", D: int64(12500 * time.Millisecond)}}},
+		// only one of the two limits set by the client: the other is its default, the one set is obeyed
+		{Name: "grpc-only-message-limit", Grpc: true, Actions: []c11Action{{K: "publish", Pads: []int{0, 0, 0, 0}}, {K: "fc", Msgs: 2, Byts: 0}, {K: "ack", Pick: []int{0}}}},
+		{Name: "grpc-only-byte-limit", Grpc: true, Actions: []c11Action{{K: "publish", Pads: []int{0, 0, 0, 0}}, {K: "fc", Msgs: 0, Byts: 30}, {K: "ack", Pick: []int{0}}}},
 		{Name: "exact-fit", Actions: []c11Action{{K: "publish", Pads: []int{0, 0, 0, 0}}, {K: "fc", Msgs: 5, Byts: 28}, {K: "ack", Pick: []int{0}}, {K: "ack", Pick: []int{0, 1}}}},
 		{Name: "exact-fit-single", Actions: []c11Action{{K: "fc", Msgs: 5, Byts: 14}, {K: "publish", Pads: []int{0, 0}}, {K: "ack", Pick: []int{0}}}},
 		{Name: "exact-fit-second", Actions: []c11Action{{K: "publish", Pads: []int{6, 0, 0}}, {K: "fc", Msgs: 5, Byts: 34}, {K: "nack", Pick: []int{1}}}},
